@@ -354,6 +354,13 @@ mut("a3-c12-new-ranges-never-merged", "C12", "C12.R7", (FM, "    while !new_rang
 # operator set 4 of the audit: a guard block removed as a whole
 mut("a4-c02-search-never-stops", "C02", "C02.R3c", (FM, "                        if range.start < new_range.start {\n                            break Some(cursor);\n                        }\n", ""))
 mut("a4-c13-found-not-returned", "C13", "C13.R9", (IR, "        if found {\n            return (cursor, byte_pos);\n        }\n", ""))
+# operator set 5 of the audit: two similar variables exchanged
+mut("a5-c12-dedent-starts-at-shift", "C12", "C12.R6", (BI, "let start = std::cmp::min(current_pos + indent_ofs, indent_pos);", "let start = std::cmp::min(current_pos + indent_len, indent_pos);"))
+mut("a5-c12-guard-compares-end-with-itself", "C12", "C12.R6", (BI, "                        if start != end {", "                        if end != end {"))
+mut("a5-c16-highlight-ends-at-start", "C16", "C16.R9", (LS, "let color_end = end.min(line_end);", "let color_end = start.min(line_end);"))
+mut("a5-c16-start-padding-from-end-line", "C16", "C16.R8", (LS, "result.push_str(&TABSPACE.to_string().repeat(marker_start_tab_len));", "result.push_str(&TABSPACE.to_string().repeat(marker_end_tab_len));"))
+mut("a5-c17-ready-range-listed-as-pending", "C17", "C17.R4", (RM, "merged_ranges.push(((pending_range.clone(), *pending_idx), false));", "merged_ranges.push(((range.clone(), *pending_idx), false));"))
+mut("a5-c02-tail-absorbs-into-head", "C02", "C02.R9", (RM, "- Self::merge_child_markers(child_markers.iter().rev(), &mut end_marker);", "- Self::merge_child_markers(child_markers.iter().rev(), &mut marker);"))
 mut("a-c17-cursor-starts-at-1", "C17", "C17.R4", (RM, "        let mut range_cursor = 0;", "        let mut range_cursor = 1;"))
 mut("a-c17-touching-pending-first", "C17", "C17.R4", (RM, "                if pending_range.start >= range.end {", "                if pending_range.start > range.end {"))
 mut("a-c17-inside-left-for-later", "C17", "C17.R4", (RM, "                if pending_range.start >= range.end {", "                if pending_range.start >= range.start {"))
